@@ -1944,7 +1944,8 @@ func (li *layoutInterp) readElem(st *lpath, sl avSlice, idx *Lin) BV {
 		if v, has := st.mem[key].(avInt); has {
 			return v.bv
 		}
-		if strings.HasPrefix(sl.region, "fresh#") {
+		if strings.HasPrefix(sl.region, "fresh#") || (strings.HasPrefix(sl.region, "arr:c") && !strings.Contains(sl.region, "r.")) {
+			// make / new of a local array: elements never written are zero
 			return bvConst(0, 8)
 		}
 	}
@@ -2111,6 +2112,11 @@ func (li *layoutInterp) globalStruct(g *ssa.Global, sel []int, t types.Type) (AV
 			}
 			return z, true
 		case 1:
+			if k, ok := constInt(stores[i][0].Val); ok {
+				if w, signed, okw := typeWidth(f.Type(), li.p.Arch); okw {
+					return avInt{lin: linConst(k), bv: bvConst(uint64(k), w), signed: signed}, true
+				}
+			}
 			ev := &BitEval{P: li.p, Env: map[ssa.Value]BV{}}
 			alts := ev.Eval(stores[i][0].Val)
 			if len(alts) == 1 && alts[0].V != nil {
